@@ -565,8 +565,8 @@ theorem note_voices (duration amplitude gate channel : Val) (notes : List Atom) 
     perform e = { calls := (vs.map (·.calls)).flatten } := by
   have hl := voiceLoop_all_ok duration amplitude gate channel notes vs 0
     { calls := [], channel := none, err := none } rfl hlen (by intro j hj; simpa using h j hj)
-  simp only [perform, hact, Bool.not_true, Bool.false_eq_true, if_false, hp, performNote, hd, haud, notesOf, hl.1, hl.2,
-    List.nil_append]
+  simp only [perform, hact, Bool.not_true, Bool.false_eq_true, if_false, hp, performNote, hd, haud, notesOf, afterLoop,
+    withBend, hl.1, hl.2, List.nil_append]
 
 example : audible (.tup [.int 0, .int 5]) = .ok true ∧ audible (.int 64) = .ok true ∧ audible (.int 0) = .ok false := by decide
 example : (resolve exChord []).toOption.map perform = some { calls := [
@@ -647,5 +647,95 @@ example : (trackEvent exEnv (fun _ => 0) [("note", .int 60), ("pitch", .int 1)] 
 theorem scale_names_aligned : Generated.scaleNameChars = Generated.scaleTable.map (·.name.toList) := by decide +kernel
 
 example : scaleByName ['p', 'u', 'r', 'e', 'm', 'i', 'n', 'o', 'r'] = some { semitones := [0, 3, 7], octave := 12 } := by decide +kernel
+
+/-! ### silent note events send nothing (the clause C02 shares with this model; fix "pitch bend only with a played note") -/
+
+/-- a voice makes either no call or a note-on followed by its scheduled note-off. -/
+theorem voice_calls (duration amplitude gate channel : Val) (index : Nat) (note : Atom) (v : Voice)
+    (h : voice duration amplitude gate channel index note = .ok v) :
+    v.calls = [] ∨ ∃ amp chan len, v.calls = [.noteOn (.a note) amp chan, .noteOffAfter len (.a note) chan] := by
+  unfold voice at h
+  simp only [bind, Except.bind, pure, Except.pure] at h
+  repeat' split at h
+  all_goals (cases h <;> first | exact Or.inl rfl | exact Or.inr ⟨_, _, _, rfl⟩)
+
+/-- the calls of the voice loop: whatever was there, then per voice nothing or note-on + note-off; if it added
+    anything, it added a note-on. -/
+theorem voiceLoop_calls (duration amplitude gate channel : Val) (notes : List Atom) :
+    ∀ (index : Nat) (acc : Loop),
+      ∃ added, (voiceLoop duration amplitude gate channel notes index acc).calls = acc.calls ++ added ∧
+        (added = [] ∨ ∃ n a c, Call.noteOn n a c ∈ added) ∧ ∀ v ch, Call.pitchBend v ch ∉ added := by
+  induction notes with
+  | nil => intro index acc; exact ⟨[], by simp [voiceLoop], Or.inl rfl, by simp⟩
+  | cons note rest ih =>
+    intro index acc
+    simp only [voiceLoop]
+    cases hv : voice duration amplitude gate channel index note with
+    | error e => exact ⟨[], by simp, Or.inl rfl, by simp⟩
+    | ok v =>
+      obtain ⟨added, h1, h2, h3⟩ := ih (index + 1) { calls := acc.calls ++ v.calls, channel := some v.channel, err := Option.none }
+      refine ⟨v.calls ++ added, by simp only [h1, List.append_assoc], ?_, ?_⟩
+      · rcases voice_calls _ _ _ _ _ _ _ hv with hc | ⟨amp, chan, len, hc⟩
+        · rw [hc]; simpa using h2
+        · right; exact ⟨.a note, amp, chan, List.mem_append.mpr (Or.inl (by rw [hc]; simp))⟩
+      · intro x ch hmem
+        rcases List.mem_append.mp hmem with hm | hm
+        · rcases voice_calls _ _ _ _ _ _ _ hv with hc | ⟨amp, chan, len, hc⟩
+          · rw [hc] at hm; simp at hm
+          · rw [hc] at hm; simp at hm
+        · exact h3 x ch hm
+
+/-- **A note event that plays no voice sends nothing at all; a pitch bend goes out only together with a note-on**
+    (rests, zero amplitude, zero gate — scalar or per voice — produce no message, whatever other keys the event has). -/
+theorem withBend_calls (l : Loop) (pb : Val) :
+    (withBend l pb).calls = l.calls ∨ (l.calls ≠ [] ∧ ∃ ch, (withBend l pb).calls = l.calls ++ [.pitchBend pb ch]) := by
+  unfold withBend
+  split
+  · exact Or.inl rfl
+  · split
+    · exact Or.inl rfl
+    · rename_i hne
+      split
+      · right
+        refine ⟨?_, _, rfl⟩
+        intro he; apply hne; rw [he]; rfl
+      · exact Or.inl rfl
+
+theorem afterLoop_calls (l : Loop) (pb : Val) :
+    (afterLoop l pb).calls = l.calls ∨ (l.calls ≠ [] ∧ ∃ ch, (afterLoop l pb).calls = l.calls ++ [.pitchBend pb ch]) := by
+  unfold afterLoop
+  split
+  · exact Or.inl rfl
+  · exact withBend_calls l pb
+
+theorem pitch_bend_only_with_a_note_on (duration note amplitude gate channel pitchbend : Val) (v ch : Val)
+    (h : Call.pitchBend v ch ∈ (performNote duration note amplitude gate channel pitchbend).calls) :
+    ∃ n a c, Call.noteOn n a c ∈ (performNote duration note amplitude gate channel pitchbend).calls := by
+  unfold performNote at h ⊢
+  split at h
+  · simp at h
+  · simp at h
+  · rename_i ha
+    split at h
+    · simp at h
+    · rename_i notes hn
+      obtain ⟨added, h1, h2, h3⟩ := voiceLoop_calls duration amplitude gate channel notes 0
+        { calls := [], channel := Option.none, err := Option.none }
+      simp only [List.nil_append] at h1
+      generalize voiceLoop duration amplitude gate channel notes 0 { calls := [], channel := Option.none, err := Option.none } = l at h h1 ⊢
+      rcases afterLoop_calls l pitchbend with hc | ⟨hne, ch', hc⟩
+      · rw [hc, h1] at h
+        exact absurd h (h3 v ch)
+      · rw [hc]
+        rcases h2 with h2 | ⟨n, a, c, h2⟩
+        · exact absurd (h1.trans h2) hne
+        · exact ⟨n, a, c, List.mem_append.mpr (Or.inl (by rw [h1]; exact h2))⟩
+
+/-- **An event none of whose voices sounds sends nothing**: if the voice loop made no call (every voice a rest,
+    zero amplitude or zero gate), the whole note event makes none — whatever its pitch bend. -/
+theorem silent_note_sends_nothing (l : Loop) (pitchbend : Val) (h : l.calls = []) : (afterLoop l pitchbend).calls = [] := by
+  rcases afterLoop_calls l pitchbend with hc | ⟨hne, _, _⟩
+  · rw [hc, h]
+  · exact absurd h hne
 
 end IsobarV.C03
